@@ -28,7 +28,7 @@ sys.setrecursionlimit(20000)
 
 ALWAYS = ("ANCHOR", "FLOOR", "ENGINE", "BUILD", "SHAPE", "SPECIMEN")
 # properties whose generator logic is also decided end-to-end by a generated-program corpus (r_corpus.py)
-CORPUS_BACKED = {"C05": ("C05-R8",), "C15": ("C15-R8",), "C16": ("C16-R6", "C16-R7"), "C18": ("C18-R5",)}
+CORPUS_BACKED = {"C05": ("C05-R8", "C05-R10"), "C15": ("C15-R8", "C15-R9"), "C16": ("C16-R6", "C16-R7"), "C18": ("C18-R5",)}
 MACRO_RULE_IDS = {"C05": ("C05-R1", "C05-R2", "C05-R3", "C05-R4", "C05-R6"), "C15": ("C15-R1", "C15-R2", "C15-R3", "C15-R4", "C15-R6"), "C16": ("C16-R1", "C16-R2", "C16-R3", "C16-R4", "C16-R5"), "C18": ("C18-R6",)}
 # which r_macros rule functions are backed by the corpus / witnesses of which property (None = all of r_macros)
 BACKED_ORIGINS = {"C18": ("r_macros.rule_param_parser",)}
